@@ -4,7 +4,7 @@ NOTES = ("All checks: ./check <id> --tier quick|thorough; setup builds the Coq d
          "and compiles the driver. known_findings.json lists recorded defects (kind known) and repaired ones (kind fixed).")
 NOT_APPLICABLE = {}
 # built, but their fix stage is in progress (model already in the repaired state, patches not yet committed to /repo)
-PENDING = {"C06", "C15", "C20"}
+PENDING = {"C05", "C06", "C15", "C20"}
 COMMON_NOTE = ("Trusted: Coq 8.16.1 kernel (+vm_compute), extraction (ExtrOcamlBasic, ExtrOcamlString), OCaml driver, the Python harness, "
                "CPython/torch as referents. Theorems are about the hand-written model; the model<->code tie is this run's differential "
                "correspondence, bounded by its generators (distribution in the evidence). ")
@@ -98,6 +98,23 @@ CHECKS = {
         "note": COMMON_NOTE + "Lazy stacks (restricted op set) and tensorclass-held tensordicts are checked by the nested-dict oracle only; paths through "
                 "NonTensorData leaves are excluded. Known findings in findings.d/C04.json.",
         "technique": "Coq refinement proof (induction over op lists with a unique-keys invariant) + step-wise extracted-model differential + nested-dict oracle",
+    },
+    "C05": {
+        "text": ("Proof (Coq) on an executable heap model of the lock graph (`_propagate_lock`, `lock_`, `_propagate_unlock`, `_check_unlock`, `unlock_`, "
+                 "lazy-stack derived lock state and computed parent list, `__setstate__`, `_memmap_`, `share_memory_`, mutators through any handle, "
+                 "garbage collection as observed deaths): an invariant by induction over ALL call histories (every child of a live node flagged "
+                 "locked is flagged locked and lists that node among its lock parents), and from it, for all trees including DAGs, lazy stacks and "
+                 "nested lazy stacks: a tree locked through lock_ keeps kind, keys and bound identities under every guarded call — raising calls "
+                 "change nothing —; a member cannot be unlocked on its own; a root sharing a node with another locked root cannot be unlocked; "
+                 "collected parents forbid nothing; unlocking the root frees every node; a pickle round trip re-locks; in-place writes stay "
+                 "possible; a finite theorem over the guard table (methods carrying @lock_blocked / method bodies writing the storage dict) "
+                 "re-translated from the source with ast on every run. Tie: state compared after every call of ~1,200 (quick) / 8,000 (thorough) "
+                 "histories (entries, identities, stored and derived lock flags, parent lists), six model-independent oracles, and a reflection "
+                 "pass: every public method of 5 container classes called on 20 kinds of locked tree through root, nested, lazy-member, "
+                 "tensorclass and sub-tensordict handles with synthesised arguments; the structure snapshot must be unchanged."),
+        "note": COMMON_NOTE + "tensorclass, TensorDictParams, _SubTensorDict, NonTensorData and calls routed through a lazy stack to its members are judged by the "
+                "oracle only; argument-synthesis coverage is measured in the evidence. Known findings in findings.d/C05.json.",
+        "technique": "Coq invariant proof over arbitrary histories on a heap model + ast-translated guard table + reflection oracle over every public method",
     },
     "C06": {
         "text": ("Proof (Coq): memoised reads of a locked tensordict equal a fresh recomputation — for EVERY tree of TensorDicts and EVERY history of "
